@@ -168,7 +168,8 @@ fn parse(tk: Token, tokens: &mut Tokenizer) -> Result<Val, Error> {
             make_obj([
                 ("version", Some(ss_val(version))),
                 ("encoding", encoding.map(ss_val)),
-                ("standalone", standalone.map(|b| b.into())),
+                // like all attribute values, this is a string
+                ("standalone", standalone.map(|b| if b { "yes" } else { "no" }.to_string().into())),
             ]),
         ),
         Token::ProcessingInstruction {
